@@ -149,6 +149,16 @@ pub proof fn c13_delete_lands<M: Ord>(s: Seq<Identifier<M>>, dom: Set<Identifier
     }
 }
 
+/// C14 (density): for two distinct identifiers low < high and any marker, `between` (its verified contract) returns an
+/// identifier strictly between them that ends in the marker -- so a new identifier fits between any two neighbours, and
+/// identifiers produced for different markers (dots) differ
+pub proof fn c14_dense<M: Ord + Clone>(low: Identifier<M>, high: Identifier<M>, marker: M, r: Identifier<M>)
+    requires between_ok::<M>(), idlt(low, high), between_post(Some(&low), Some(&high), marker, r),
+    ensures idlt(low, r), idlt(r, high), r@.len() > 0, r@.last().1 == marker,
+{
+    c14_antisymmetric(low@, high@);
+}
+
 /// a < b <= c gives a < c, and a <= b < c gives a < c, in the identifier order
 pub proof fn l_lt_le<M: Ord>(a: Identifier<M>, b: Identifier<M>, c: Identifier<M>)
     requires node_ok::<M>(), ord_ok::<Identifier<M>>(), idlt(a, b), le(b, c),
